@@ -1035,17 +1035,40 @@ def lookup_reference(ctx):
              any(isinstance(c_, ast.Compare) and isinstance(
                  c_.ops[0], (ast.Eq, ast.NotEq)) for c_ in ast.walk(st.value))]
     sorted_on = False
+    # the keys handed to sort_values: a literal list / tuple, or a local list
+    # (initial literal + append calls)
+    keys = set()
+    for c_ in ast.walk(f.node):
+        if isinstance(c_, ast.Call) and isinstance(c_.func, ast.Attribute) \
+                and c_.func.attr == 'sort_values':
+            for k_ in c_.keywords:
+                if k_.arg != 'by':
+                    continue
+                if isinstance(k_.value, (ast.List, ast.Tuple)):
+                    keys |= {getattr(e_, 'value', None)
+                             for e_ in k_.value.elts}
+                elif isinstance(k_.value, ast.Constant):
+                    keys.add(k_.value.value)
+                elif isinstance(k_.value, ast.Name):
+                    ln = k_.value.id
+                    for n_ in ast.walk(f.node):
+                        if isinstance(n_, ast.Assign) and \
+                                unparse(n_.targets[0]) == ln and isinstance(
+                                    n_.value, (ast.List, ast.Tuple)):
+                            keys |= {getattr(e_, 'value', None)
+                                     for e_ in n_.value.elts}
+                        if isinstance(n_, ast.Call) and isinstance(
+                                n_.func, ast.Attribute) and \
+                                n_.func.attr == 'append' and \
+                                unparse(n_.func.value) == ln and n_.args \
+                                and isinstance(n_.args[0], ast.Constant):
+                            keys.add(n_.args[0].value)
     for st in exact:
         t = st.targets[0]
         key = t.slice.value if isinstance(t, ast.Subscript) and isinstance(
             t.slice, ast.Constant) else None
-        if key and f"'{key}'" in src.split('sort_values')[0] + \
-                ''.join(src.split('sort_values')[1:]):
-            for c_ in ast.walk(f.node):
-                if isinstance(c_, ast.Call) and isinstance(
-                        c_.func, ast.Attribute) and \
-                        c_.func.attr == 'sort_values':
-                    sorted_on = sorted_on or key in src
+        if key and key in keys:
+            sorted_on = True
     if not filt or (exact and sorted_on):
         res.ok('exact reference matches are ranked before substring matches')
     else:
